@@ -183,8 +183,7 @@ Fixpoint spec_insts (acc : list isig) (body : list stmt) : list isig :=
     spec_insts acc' body'
   end.
 
-(* ---- attachments: which pin is joined to which net bit *)
-Definition netbit := (str * nat)%type.
+(* ---- attachments: which pin is joined to which net bit ([netbit]: Fmt/Blif.v) *)
 
 Definition nb_of (tok : str) : option netbit :=
   match pni tok with Ok x => Some x | Error _ => None end.
@@ -236,12 +235,13 @@ Fixpoint spec_conns (body : list stmt) : list (netbit * netbit) :=
   | _ :: body' => spec_conns body'
   end.
 
-Definition nb_eqb (x y : netbit) : bool := str_eqb (fst x) (fst y) && Nat.eqb (snd x) (snd y).
-
-(* two net bits are the same net: equal, or named together by a .conn (the supported subset lets
-   every cable appear in at most one .conn, so no closure is needed) *)
-Definition same_bit (cs : list (netbit * netbit)) (x y : netbit) : Prop :=
-  x = y \/ In (x, y) cs \/ In (y, x) cs.
+(* two net bits are the same net: equal, or joined by a chain of .conn statements (in any direction, in
+   any order) *)
+Inductive same_bit (cs : list (netbit * netbit)) : netbit -> netbit -> Prop :=
+| sb_refl x : same_bit cs x x
+| sb_conn x y : In (x, y) cs -> same_bit cs x y
+| sb_sym x y : same_bit cs x y -> same_bit cs y x
+| sb_trans x y z : same_bit cs x y -> same_bit cs y z -> same_bit cs x z.
 
 (* pins [a] and [b] of model [m] are on one wire *)
 Definition same_wire (m : model) (a b : pinref) : Prop :=
@@ -302,51 +302,15 @@ Definition denote (d : doc) (n : bnv) : Prop :=
 
 (* ====================================================================== the supported subset *)
 (* (1) the reader segments the file like the grammar (no statement line is silently skipped);
-   (2) per section: every .conn comes after all statements that name nets, names two different
-       cables, no cable is named by two .conn, and no .conn names the cable another .conn creates;
-   (3) a section instancing nothing but primitives that it does not itself redefine: model names
+   (2) a section instancing nothing but primitives that it does not itself redefine: model names
        are distinct, and the reserved definitions logic-gate_N / generic-latch are only created by
-       .names / .latch;
-   (4) .latch has two, four or five operands; no statement line contains "#". *)
-Definition cables_of_stmt (s : stmt) : list str :=
-  let nm t := match nb_of t with Some (c, _) => [c] | None => [] end in
-  match s with
-  | SInputs l | SOutputs l => flat_map nm l
-  | SSub _ _ pairs => flat_map (fun t => nm (snd (split_eq t))) pairs
-  | SNames l | SLatch l => flat_map nm l
-  | SConn a b => nm a ++ nm b
-  | _ => []
-  end.
-
-Fixpoint conns_last (body : list stmt) : bool :=
-  match body with
-  | [] => true
-  | SConn _ _ :: body' =>
-    forallb (fun s => match s with SConn _ _ | SBlackbox | SCover _ _ | SCname _ | SAttr _ _ | SParam _ _ | SClock _ => true | _ => false end) body'
-    && conns_last body'
-  | _ :: body' => conns_last body'
-  end.
-
+       .names / .latch; a black-box section consists of its port lists and .blackbox;
+   (3) .latch has two, four or five operands; no statement line contains "#".
+   Nothing is asked of .conn any more: since the repair of merge_wires (the merged net keeps the cable and
+   the name of the first operand, the other name stands for it from then on) the statements may come in any
+   order, name a net any number of times, and no net name is special. *)
 Fixpoint nodup_strs (l : list str) : bool :=
   match l with [] => true | x :: l' => negb (existsb (str_eqb x) l') && nodup_strs l' end.
-
-Definition conn_cables (body : list stmt) : list str :=
-  flat_map (fun s => match s with SConn _ _ => cables_of_stmt s | _ => [] end) body.
-
-(* .conn gives the merged net a cable called <a>_<i>_<b>_<j>; a .conn operand that spells such a
-   name would capture the merged net (C18_sound_refuted_conn_capture), so no operand of a .conn of
-   the section may be the merge name of a .conn of the section *)
-Definition conn_merge_names (body : list stmt) : list str :=
-  flat_map (fun s => match s with
-                     | SConn a b => match nb_of a, nb_of b with
-                                    | Some (an, ai), Some (bn, bi) => [merge_name an ai bn bi]
-                                    | _, _ => []
-                                    end
-                     | _ => []
-                     end) body.
-
-Definition conn_fresh (body : list stmt) : bool :=
-  forallb (fun c => negb (existsb (str_eqb c) (conn_merge_names body))) (conn_cables body).
 
 Definition reserved (nm : str) : bool := is_prefix k_logic_gate nm || str_eqb nm k_latch_def.
 
@@ -364,7 +328,7 @@ Definition latch_arity_ok (body : list stmt) : bool :=
                     end) body.
 
 Definition body_ok (nm : str) (body : list stmt) : bool :=
-  conns_last body && nodup_strs (conn_cables body) && conn_fresh body && bb_shape body &&
+  bb_shape body &&
   negb (reserved nm) && negb (match nm with [] => true | _ => false end) &&
   forallb (fun s => match s with SSub _ r _ => negb (reserved r) | _ => true end) body &&
   latch_arity_ok body.
